@@ -126,6 +126,8 @@ HEADER = """    fn arm_variable(&mut self, variable: &str, sub: &Box<Expr>, pos:
                 let so = sub_operand(**sub, high_byte || second_time, old(self).sub_output, final(self).gh@);
                 so is Immediate && v.var_const && res->Ok_0->Absolute_2 == so->Immediate_0
                 && res->Ok_0->Absolute_1 == (v.var_type != VariableType::CharPtrPtr && v.var_type != VariableType::ShortPtr) }), //@ C01:constant-index-operand
+            // a constant index becomes an offset that asm() adds to the port and high-byte displacements (i32 arithmetic): it is kept small or rejected
+            (res is Ok && !(**sub is Nothing) && res->Ok_0 is Absolute && !final(self).gh@.widened) ==> -0xffff <= res->Ok_0->Absolute_2 <= 0xffff, //@ C16:constant-index-in-range-or-rejected
             // a scalar has no elements, and a subscript has a value
             (res is Ok && !(**sub is Nothing)) ==> ({ let v = var_of(old(self).compiler_state, variable@); v.var_type != VariableType::Char && v.var_type != VariableType::Short
                 && !(sub_operand(**sub, high_byte || second_time, old(self).sub_output, final(self).gh@) is Nothing) }), //@ C01,C16:subscript-on-scalar-rejected
